@@ -1,5 +1,5 @@
 """C04 -- an active object dispatches every posted event exactly once, in queue order."""
-from vt import detsched as ds, aosim
+from vt import detsched as ds, aosim, osback
 from vt.checks import c05
 
 ID = 'C04'
@@ -11,15 +11,118 @@ RULE = ('C05 scenarios (1-4 posters x 1-6 unique-id events, fifo/lifo mixed, han
         'Checked: every returned post is exactly one append (fifo) / appendleft (lifo) of that event inside its call interval; the dispatch '
         'sequence equals the popleft sequence and a replayed deque model; every posted id dispatched exactly once, none twice, none '
         'unposted; per-poster fifo order; dispatch intervals disjoint and on the object\'s thread; at quiescence the queue is empty (no '
-        'lost wake-up). distinct_nontrivial = distinct context-switch sequences of runs that entered a race window')
+        'lost wake-up). Every twentieth case is a second opinion on REAL threads with the real primitives (vt/osback.py: nothing substituted, switch interval 1 us, random yields at line starts of miros code): exactly-once, no phantom, steps on the object\'s thread and not overlapping, per-poster order of all-fifo runs; a run that does not drain in the wall-clock limit is inconclusive there. distinct_nontrivial = distinct context-switch sequences of runs that entered a race window')
 CASES = {'quick': 1200, 'thorough': 100000}
 BUDGET = {'quick': 150, 'thorough': 300}
-REQUIRE = {'runs_checked': 500, 'runs_with_live_output_on': 100, 'timed_events_expected': 200, 'published_events_expected': 200, 'poster_between_token_put_and_append': 50, 'consumer_between_get_and_popleft': 50, 'events_dispatched': 3000}
+REQUIRE = {'runs_checked': 500, 'runs_with_live_output_on': 100, 'timed_events_expected': 200, 'published_events_expected': 200, 'poster_between_token_put_and_append': 50, 'consumer_between_get_and_popleft': 50, 'events_dispatched': 3000, 'os_backend_runs': 30}
 ASSUME = ['queue capacity (500) is not reached', 'runs cut by the C05 step budget are attributed to C05 and excluded here']
 ANNOUNCE_CASES = True
 
 
+def os_case(ctx, n):
+  """second opinion on real threads with the real primitives (vt/osback.py): posters race a started ActiveObject; only facts that
+  need no wall clock are decided (exactly-once, no phantom, per-poster fifo order, steps on the object's thread and not
+  overlapping); a run that does not drain within the wall-clock limit is inconclusive here, never a verdict"""
+  import threading
+  import miros.activeobject as AO
+  import miros.hsm as H
+  from miros.event import signals, Event, return_status as RS
+  rng = ctx.rng('os', n)
+  plans, fan, nev = c05.gen_plan(rng)
+  plans = [[(k, u) for (k, u) in pl] * 1 for pl in plans]
+  stamp = osback.Stamp()
+  dispatch, posts = [], []
+  spied = rng.random() < 0.5
+
+  def st(chart, e):
+    sig = e.signal
+    if sig == signals.ENTRY_SIGNAL or sig == signals.INIT_SIGNAL or sig == signals.EXIT_SIGNAL:
+      return RS.HANDLED
+    if e.signal_name == 'EVT':
+      for kind, uid in fan.get(e.payload, ()):
+        posts.append({'poster': 'handler', 'uid': uid, 'kind': kind})
+        (chart.post_fifo if kind == 'fifo' else chart.post_lifo)(Event(signal='EVT', payload=uid))
+      return RS.HANDLED
+    chart.temp.fun = chart.top
+    return RS.SUPER
+  st.__name__ = 'c04_os_state'
+  state = H.spy_on(st) if spied else st
+
+  class MonAO(AO.ActiveObject):
+    def dispatch(self, e):
+      rec = {'uid': e.payload, 'sig': e.signal_name, 'enter': stamp(), 'exit': None, 'thread': threading.get_ident()}
+      dispatch.append(rec)
+      try:
+        return AO.ActiveObject.dispatch(self, e)
+      finally:
+        rec['exit'] = stamp()
+  ao = MonAO(name='c04_os', instrumented=rng.random() < 0.7)
+  if spied and rng.random() < 0.3:
+    ao.live_spy = True
+    ao.register_live_spy_callback(lambda line: None)
+
+  def poster(who, plan):
+    for kind, uid in plan:
+      rec = {'poster': who, 'uid': uid, 'kind': kind}
+      (ao.post_fifo if kind == 'fifo' else ao.post_lifo)(Event(signal='EVT', payload=uid))
+      posts.append(rec)
+  expected = set(u for pl in plans for _, u in pl) | set(u for f in fan.values() for _, u in f)
+  try:
+    with osback.Perturb(rng.randrange(1 << 30), p_yield=rng.choice([0.05, 0.2, 0.5])) as P:
+      ao.start_at(state)
+      ao_ident = ao.thread.ident
+      finished, excs = osback.run_threads([(poster, ('p%d' % i, pl)) for i, pl in enumerate(plans)], limit=30.0)
+      drained = finished and osback.wait_for(lambda: len([d for d in dispatch if d['sig'] == 'EVT' and d['exit'] is not None]) >= len(expected) or not ao.thread.is_alive(), limit=15.0)
+    ctx.count('os_backend_yields_injected', P.nyields)
+    wit = {'backend': 'os threads', 'plans': plans, 'fan': fan, 'spied': spied, 'dispatched': [d['uid'] for d in dispatch][:40]}
+    if excs:
+      ctx.count('os_backend_runs')
+      ctx.violation('C04/exception-in-thread', 'real threads: a poster raised: %r' % excs, wit)
+      return
+    got = [d['uid'] for d in dispatch if d['sig'] == 'EVT']
+    dup = sorted(set(u for u in got if got.count(u) > 1))
+    phantom = [u for u in got if u not in expected]
+    if dup or phantom:
+      ctx.count('os_backend_runs')
+      ctx.violation('C04/dispatched-twice' if dup else 'C04/phantom-dispatch', 'real threads: events %r were dispatched more than once / events %r were never posted' % (dup, phantom), wit)
+      return
+    if not drained or not ao.thread.is_alive():
+      if not ao.thread.is_alive() and finished:
+        ctx.count('os_backend_runs')
+        ctx.violation('C04/exception-in-thread', 'real threads: the thread of a never-stopped active object ended while %d posted events were not dispatched' % (len(expected) - len(set(got))), wit)
+      else:
+        ctx.count('os_backend_inconclusive')
+      return
+    ctx.count('os_backend_runs')
+    ctx.count('os_backend_events_dispatched', len(got))
+    off = [d['uid'] for d in dispatch if d['thread'] != ao_ident]
+    if off:
+      ctx.violation('C04/step-off-thread', 'real threads: events %r were dispatched off the object\'s thread' % off[:5], wit)
+      return
+    ds_sorted = sorted(dispatch, key=lambda d: d['enter'])
+    for a, b in zip(ds_sorted, ds_sorted[1:]):
+      if a['exit'] is None or a['exit'] > b['enter']:
+        ctx.violation('C04/steps-overlap', 'real threads: run-to-completion steps of events %s and %s overlap' % (a['uid'], b['uid']), wit)
+        return
+    # per-poster order of fifo posts made by ONE poster thread when every post of the run is fifo (then the queue is a plain fifo)
+    if all(k == 'fifo' for pl in plans for k, _ in pl) and not fan:
+      pos = {u: i for i, u in enumerate(got)}
+      for pl in plans:
+        seq = [pos[u] for _, u in pl]
+        if seq != sorted(seq):
+          ctx.violation('C04/fifo-post-overtook-earlier-event', 'real threads: the fifo posts %r of one poster were dispatched in the order %r' % ([u for _, u in pl], sorted((u for _, u in pl), key=pos.get)), wit)
+          return
+  finally:
+    try:
+      if ao.thread is not None and ao.thread.is_alive():
+        ao.stop()
+    except Exception:
+      pass
+
+
 def run_case(ctx, n):
+  if n % 20 == 19:
+    return os_case(ctx, n)
   rng = ctx.rng('case', n)
   plans, fan, nev = c05.gen_plan(rng)
   spied, instrumented = rng.random() < 0.5, rng.random() < 0.7
